@@ -13,6 +13,8 @@ from hdcv.spec import contract, specfn
 import contracts.ops_ws2d  # noqa: F401  (cntpos)
 
 OPS = "hdc/algo/ops"
+MFOCUS = {"only": ["inv:v", "inv:argmin", "inv:range", "inv:sizes", "inv:shapes", "let", "path", "range", "req"], "nlabs": "first"}
+AFOCUS = {"only": ["inv:acc", "inv:z", "inv:diff", "inv:range", "range", "path"], "nlabs": "first"}
 
 specfn("WSI", "y:real[], l:real, w:real[], n:int, i:int", "real", [], doc="cell i of ws2d(y, l, w), length n (uninterpreted)")
 contract(f"{OPS}/ws2d.py::ws2d", variant="fn", fmodel="R", params={"y": "real[N]", "lmda": "real", "w": "real[N]"}, result="real[N]",
@@ -61,18 +63,18 @@ contract(f"{OPS}/ws2doptv.py::ws2doptv", variant="sel", fmodel="R",
     params={"y": "real[N]", "nodata": "real", "llas": "real[M]", "out": "i2[N]", "lopt": "real[1]"},
     modifies=["out", "lopt"],
     requires={"length": "N >= 4", "srange": "M >= 2", "integer_valued_input": "forall(i, 0, N, isint(y[i]))"},
-    entry_hints=[("let", "K", "0")],
     exit_hints=[("let", "WG", "w")],
     ensures={
         "weights": UNIT,
-        "midpoint": "implies(nvalid(y, nodata, N) > 1, 0 <= K and K < M - 1 and lopt[0] == pow(10.0, (llas[K] + llas[K + 1]) / 2))",
-        "minimal": f"implies(nvalid(y, nodata, N) > 1, forall(j, 0, M - 1, {VC('K', 'WG')} <= {VC('j', 'WG')}))",
-        "first_minimum": f"implies(nvalid(y, nodata, N) > 1, forall(j, 0, K, {VC('K', 'WG')} < {VC('j', 'WG')}))",
-        "band_is_fixed_lambda_curve": "implies(nvalid(y, nodata, N) > 1, forall(i, 0, N, out[i] == rint(WSI(y, lopt[0], WG, N, i))))",
         "passthrough": "implies(nvalid(y, nodata, N) <= 1, lopt[0] == 0.0 and forall(i, 0, N, real(out[i]) == y[i]))",
     },
-    anchors={
-        "after: lopt[0] = pow(10, lamids[k])": [("let", "K", "k")],
+    # clauses about the smoothing path, stated over its locals (k: the selected grid cell); skipped on the pass-through path where
+    # these locals do not exist (there nvalid <= 1 and `passthrough` applies)
+    local_ensures={
+        "midpoint": "0 <= k and k < M - 1 and lopt[0] == pow(10.0, (llas[k] + llas[k + 1]) / 2)",
+        "minimal": f"forall(j, 0, M - 1, {VC('k')} <= {VC('j')})",
+        "first_minimum": f"forall(j, 0, k, {VC('k')} < {VC('j')})",
+        "band_is_fixed_lambda_curve": "implies(nvalid(y, nodata, N) > 1, forall(i, 0, N, out[i] == rint(WSI(y, lopt[0], w, N, i))))",
     },
     loops={
         0: {"var": "ii", "invariant": {"range": "0 <= ii and n == nvalid(y, nodata, ii) and w.size == N and m == N",
@@ -81,7 +83,8 @@ contract(f"{OPS}/ws2doptv.py::ws2doptv", variant="sel", fmodel="R",
                                         "shapes": SHAPES, "w": SAMEW, "done": FITS_DONE, "todo": FITS_TODO}},
         2: {"var": "i", "invariant": {"range": "0 <= i and 0 <= lix and lix < M and nl == M and nl1 == M - 1 and m == N and m1 == N - 1 and m2 == N - 2 and k == 0",
                                       "shapes": SHAPES, "w": SAMEW, "z": ZCUR, "done": FITS_DONE, "todo": FITS_TODO.replace("forall(q, lix, M", "forall(q, lix + 1, M"),
-                                      "acc": f"fits[lix] == fsq(y, {lam('lix')}, w, N, i) and pens[lix] == 0.0"}},
+                                      "acc": f"fits[lix] == fsq(y, {lam('lix')}, w, N, i) and pens[lix] == 0.0"},
+            "by": {"pres/acc": AFOCUS}},
         3: {"var": "i", "invariant": {"range": "0 <= i and 0 <= lix and lix < M and nl == M and nl1 == M - 1 and m == N and m1 == N - 1 and m2 == N - 2 and k == 0",
                                       "shapes": SHAPES, "w": SAMEW, "z": ZCUR, "done": FITS_DONE, "todo": FITS_TODO.replace("forall(q, lix, M", "forall(q, lix + 1, M"),
                                       "fit": f"fits[lix] == {FIT('lix')} and pens[lix] == 0.0",
@@ -90,14 +93,124 @@ contract(f"{OPS}/ws2doptv.py::ws2doptv", variant="sel", fmodel="R",
                                       "shapes": SHAPES, "w": SAMEW, "z": ZCUR, "done": FITS_DONE, "todo": FITS_TODO.replace("forall(q, lix, M", "forall(q, lix + 1, M"),
                                       "fit": f"fits[lix] == {FIT('lix')}",
                                       "diff": "forall(k, 0, N - 1, diff1[k] == z[k + 1] - z[k])",
-                                      "acc": f"pens[lix] == psq(y, {lam('lix')}, w, N, i)"}},
+                                      "acc": f"pens[lix] == psq(y, {lam('lix')}, w, N, i)"},
+            "by": {"pres/acc": AFOCUS}},
         5: {"var": "i", "invariant": {"range": "0 <= i and nl == M and nl1 == M - 1 and m == N and k == 0 and llastep == llas[1] - llas[0]",
                                       "shapes": SHAPES, "w": SAMEW, "done": FITS_DONE.replace("forall(q, 0, lix", "forall(q, 0, M"),
-                                      "v": f"forall(q, 0, i, v[q] == {VC('q')} and lamids[q] == (llas[q] + llas[q + 1]) / 2)"}},
+                                      "v": f"forall(q, 0, i, v[q] == {VC('q')} and lamids[q] == (llas[q] + llas[q + 1]) / 2)"},
+            "by": {"pres/v": {"only": ["inv:v", "inv:range", "inv:done", "range", "path"], "nlabs": "first"}}},
         6: {"var": "i", "invariant": {"range": "1 <= i and nl == M and nl1 == M - 1 and m == N",
                                       "shapes": SHAPES, "w": SAMEW,
                                       "v": f"forall(q, 0, M - 1, v[q] == {VC('q')} and lamids[q] == (llas[q] + llas[q + 1]) / 2)",
                                       "argmin": "0 <= k and k < i and k < nl1 and vmin == v[k] and forall(q, 0, i, implies(q < nl1, v[k] <= v[q])) and forall(q, 0, k, v[k] < v[q])"}},
     },
-    options={"nloops": 7, "frame_obligations": False, "div_obligations": False},
+    options={"nloops": 7, "frame_obligations": False, "div_obligations": False, "by": {"midpoint": MFOCUS}},
     call_variant={"ws2d": "fn"}, props=("C04",), note="model R")
+
+
+# ------------------------------------------------------------------------------------------------------------------------------
+# asymmetric variants: ws2doptvp (gufunc), _ws2doptvp (jit helper used by the chunked drivers), ws2doptvplc (grid from lag-1 correlation).
+# The envelope iteration is warm-started from the previous grid cell, so the (log fit, log pen) points are those of the curve the
+# iteration holds at each grid cell; they are pinned down inside the loop (ghost `have`s: fits[lix] is the log of the weighted squared
+# residuals of the current curve, pens[lix] the log of its squared second differences) and the postcondition speaks about the
+# final arrays FG / PG / VG:  VG is the V-curve of (FG, PG), K its first strict minimum, lopt = 10**midpoint(K), and the band is the
+# last reweighting step of the envelope iteration at lopt (same form as ws2dpgu's contract, C03).
+specfn("fsz", "y:real[], w:real[], z:real[], i:int", "real",
+       [("i <= 0", "0.0"), (None, "fsz(y, w, z, i - 1) + (w[i - 1] * (y[i - 1] - z[i - 1])) * (w[i - 1] * (y[i - 1] - z[i - 1]))")])
+specfn("fszi", "y:int[], w:real[], z:real[], i:int", "real",
+       [("i <= 0", "0.0"), (None, "fszi(y, w, z, i - 1) + (w[i - 1] * (y[i - 1] - z[i - 1])) * (w[i - 1] * (y[i - 1] - z[i - 1]))")])
+DZ = "((z[i + 1] - z[i]) - (z[i] - z[i - 1]))"
+specfn("psz", "z:real[], i:int", "real", [("i <= 0", "0.0"), (None, f"psz(z, i - 1) + {DZ} * {DZ}")])
+specfn("nvalidi", "y:int[], nd:real, hi:int", "int",
+       [("hi <= 0", "0"), (None, "nvalidi(y, nd, hi - 1) + ite(y[hi - 1] == nd, 0, 1)")])
+
+
+VFOCUS = {"only": ["inv:v", "inv:range", "range", "path"], "nlabs": "first"}
+
+
+def VCF(F, P, L, j):
+    return (f"(sqrt(({F}[({j}) + 1] - {F}[{j}]) * ({F}[({j}) + 1] - {F}[{j}]) + ({P}[({j}) + 1] - {P}[{j}]) * ({P}[({j}) + 1] - {P}[{j}]))"
+            f" / (log(10.0) * ({L}[1] - {L}[0])))")
+
+
+def asym(path, name, kind, variant="sel", lc=None):
+    """kind: 'gu' (ws2doptvp), 'jit' (_ws2doptvp), 'lc' (ws2doptvplc)"""
+    gu = kind in ("gu", "lc")
+    off = 1 if gu else 0
+    LOPT = "lopt[0]" if gu else "lopt"
+    FS = "fszi" if kind == "lc" else "fsz"
+    NV = ("nvalidi" if kind == "lc" else "nvalid") + "(y, nodata, N)"
+    guard = f"{NV} > 1" if gu else "True"
+    consts = "nl == llas.size and nl1 == nl - 1 and m == N and m1 == N - 1 and m2 == N - 2 and p1 == 1 - p and nl >= 2"
+    sizes = "fits.size == nl and pens.size == nl and z.size == N and znew.size == N and diff1.size == N - 1 and lamids.size == nl - 1 and v.size == nl - 1 and wa.size == N and ww.size == N and w.size == N"
+    todo = lambda lo: f"forall(q, {lo}, nl, fits[q] == 0.0 and pens[q] == 0.0)"
+    vdef = lambda hi: f"forall(q, 0, {hi}, v[q] == {VCF('fits', 'pens', 'llas', 'q')} and lamids[q] == (llas[q] + llas[q + 1]) / 2)"
+    loops = {}
+    if gu:
+        loops[0] = {"var": "ii", "invariant": {"range": f"0 <= ii and n == {NV.replace(', N)', ', ii)')} and w.size == N and m == N",
+                                               "unit": "forall(k, 0, ii, w[k] == ite(y[k] == nodata, 0.0, 1.0))"}}
+    L = lambda i: i + off
+    loops[L(0)] = {"var": "lix", "invariant": {"range": f"0 <= lix and k == 0 and {consts}", "sizes": sizes, "todo": todo("lix")}}
+    loops[L(1)] = {"var": "i", "invariant": {"range": f"0 <= i and 0 <= lix and lix < nl and k == 0 and {consts}", "sizes": sizes}}
+    loops[L(2)] = {"var": "j", "invariant": {"range": "0 <= j"}}
+    loops[L(3)] = {"var": "j", "invariant": {"range": "0 <= j"}}
+    loops[L(4)] = {"var": "i", "invariant": {"range": f"0 <= i and 0 <= lix and lix < nl and k == 0 and {consts}", "sizes": sizes, "todo": todo("lix + 1"),
+                                             "acc": f"fits[lix] == {FS}(y, w, z, i) and pens[lix] == 0.0"}, "by": {"pres/acc": AFOCUS}}
+    loops[L(5)] = {"var": "i", "invariant": {"range": "0 <= i", "diff": "forall(q, 0, i, diff1[q] == z[q + 1] - z[q])"}}
+    loops[L(6)] = {"var": "i", "invariant": {"range": f"0 <= i and 0 <= lix and lix < nl and k == 0 and {consts}", "sizes": sizes, "todo": todo("lix + 1"),
+                                             "acc": "pens[lix] == psz(z, i)"}, "by": {"pres/acc": AFOCUS}}
+    loops[L(7)] = {"var": "i", "invariant": {"range": f"0 <= i and k == 0 and {consts} and llastep == llas[1] - llas[0]", "sizes": sizes, "v": vdef("i")},
+                   "by": {"pres/v": dict(VFOCUS, prefer="noax") if kind == "lc" else VFOCUS}}
+    loops[L(8)] = {"var": "i", "invariant": {"range": f"1 <= i and {consts}", "sizes": sizes,
+                                             "argmin": "0 <= k and k < i and k < nl1 and vmin == v[k] and forall(q, 0, i, implies(q < nl1, v[k] <= v[q])) and forall(q, 0, k, v[k] < v[q])"}}
+    WA = "ite(y[q] > ZP[q], p, 1 - p)"
+    loops[L(9)] = {"var": "i", "ghost_assigned": ["ZP"], "invariant": {
+        "range": "0 <= i and i <= 10 and ZP.size == N", "sizes": sizes,
+        "weights": f"implies(i >= 1, forall(q, 0, N, ww[q] == w[q] * {WA}))"}}
+    loops[L(10)] = {"var": "j", "invariant": {"range": "0 <= j", "sizes": sizes,
+                                              "ww": "forall(q, 0, j, ww[q] == w[q] * ite(y[q] > z[q], p, 1 - p))"}}
+    loops[L(11)] = {"var": "j", "invariant": {"range": "0 <= j"}}
+    anchors = {
+        "after: fits[lix] =": [("have", "fit_is_log_wsse", f"fits[lix] == log({FS}(y, w, z, N))")],
+        "after: pens[lix] =": [("have", "pen_is_log_roughness", "pens[lix] == log(psz(z, N - 2))")],
+        "after: znew[0:m] =": [("let", "ZP", "z.copy()"), ("have", "ww_def", f"forall(q, 0, N, ww[q] == w[q] * {WA})")],
+    }
+    RES_LOPT = "lopt[0]" if gu else "lopt"
+    band_cell = "out[i] == rint(WSI(y, lopt[0], ww, N, i))" if gu else "z[i] == WSI(y, lopt, ww, N, i)"
+    ensures = {}
+    local = {
+        "midpoint": f"0 <= k and k < nl - 1 and nl == llas.size and {RES_LOPT} == pow(10.0, (llas[k] + llas[k + 1]) / 2)",
+        "vcurve": f"forall(j, 0, nl - 1, v[j] == {VCF('fits', 'pens', 'llas', 'j')})",
+        "minimal": "forall(j, 0, nl - 1, v[k] <= v[j])",
+        "first_minimum": "forall(j, 0, k, v[k] < v[j])",
+        "band_is_last_envelope_step": f"forall(i, 0, N, ww[i] == w[i] * ite(y[i] > ZP[i], p, 1 - p) and {band_cell})",
+    }
+    params = {"y": "real[N]", "nodata": "real", "p": "real", "llas": "real[M]", "out": "i2[N]", "lopt": "real[1]"}
+    requires = {"length": "N >= 4", "srange": "M >= 2", "envelope": "0 < p and p < 1", "integer_valued_input": "forall(i, 0, N, isint(y[i]))"}
+    Z0 = "arr(k, N, 0.0)"
+    entry = [("let", "ZP", Z0)]
+    kw = {}
+    if gu:
+        ensures["weights"] = "forall(q, 0, N, WG[q] == ite(y[q] == nodata, 0.0, 1.0))"
+        ensures["passthrough"] = f"implies({NV} <= 1, lopt[0] == 0.0 and forall(i, 0, N, real(out[i]) == y[i]))"
+        kw = {"modifies": ["out", "lopt"]}
+    if kind == "jit":
+        params = {"y": "real[N]", "w": "real[N]", "p": "real", "llas": "real[M]"}
+        requires = {"length": "N >= 4", "srange": "M >= 2", "envelope": "0 < p and p < 1"}
+        kw = {"result": ("real[N]", "real")}
+    if kind == "lc":
+        params = {"y": "i2[N]", "nodata": "real", "p": "real", "lc": lc or "real", "out": "i2[N]", "lopt": "real[1]"}
+        requires = {"length": "N >= 4", "envelope": "0 < p and p < 1"}
+        local["grid_from_correlation"] = ("ite(lc > 0.5, llas.size == 16 and forall(q, 0, 16, llas[q] == -2 + q * 0.2), "
+                                          "llas.size == 16 and forall(q, 0, 16, llas[q] == 0 + q * 0.2))")
+    contract(f"{OPS}/{path}::{name}", variant=variant, fmodel="R", params=params, requires=requires, entry_hints=entry,
+             exit_hints=[("let", "WG", "w")], ensures=ensures, local_ensures=local, anchors=anchors, loops=loops,
+             options={"nloops": 12 + off, "frame_obligations": False, "div_obligations": False, "by": {"midpoint": MFOCUS}},
+             call_variant={"ws2d": "fn"}, props=("C04",), note="model R", **kw)
+    return f"{OPS}/{path}::{name}@{variant}"
+
+
+SEL = [f"{OPS}/ws2doptv.py::ws2doptv@sel",
+       asym("ws2doptvp.py", "ws2doptvp", "gu"),
+       asym("ws2doptvp.py", "_ws2doptvp", "jit"),
+       asym("ws2doptvplc.py", "ws2doptvplc", "lc")]
